@@ -215,6 +215,10 @@ def run(ctx):
             # IndexError / KeyError are what the library's own control flow catches: every other case
             forced = DISTINCT_CRASH_CLASSES[1 + (slot // 2) % 2] if slot % 2 == 0 else \
                 DISTINCT_CRASH_CLASSES[(slot // 2) % len(DISTINCT_CRASH_CLASSES)]
+            if slot % 5 == 3:
+                from ..gen.world import library_crash_class
+
+                forced = library_crash_class()
             case.sync.crash_class = case.asyn.crash_class = forced
             ctx.count("crash_class:" + forced.__name__)
         try:
